@@ -494,6 +494,32 @@ def validate_integrity(src):
     return out
 
 
+def check_len_fn(src, which):
+    txt = src.get(ATTRMOD)
+    exprs = [
+        ("allowed_range.start_bound()", "start_bound"), ("allowed_range.end_bound()", "end_bound"),
+        ("StunParseError::Truncated { expected: $a, actual: $b }", "(PErr.truncated $a $b)"),
+        ("StunParseError::TooLarge { expected: $a, actual: $b }", "(PErr.tooLarge $a $b)"),
+        ("StunParseError::WrongAttributeImplementation", "PErr.wrongImpl"),
+        ("Err($x)", "(Except.error $x)"), ("Ok(())", "(Except.ok ())"),
+        ("self.header.get_type()", "a.ty"), ("self.value.len()", "a.value.length"),
+        ("check_len($l, allowed_range)", "(checkLen $l start_bound end_bound)"),
+    ]
+    pats = [("std::ops::Bound::Unbounded", "Bound.unbounded"), ("std::ops::Bound::Included($x)", "Bound.included $x"),
+            ("std::ops::Bound::Excluded($x)", "Bound.excluded $x")]
+    if which == "check_len":
+        body = fn_body(txt, r"\nfn\s+check_len\s*\(\s*len\s*:\s*usize\s*,\s*allowed_range\s*:\s*impl\s+std::ops::RangeBounds<usize>\s*,?\s*\)\s*->\s*Result<\(\),\s*StunParseError>\s*\{")
+        locs = ["len", "start_bound", "end_bound"]
+    else:
+        imp = impl_body(txt, r"impl\s*<'a>\s*RawAttribute<'a>\s*\{")
+        body = fn_body(imp or "", r"pub\s+fn\s+check_type_and_len\s*\(\s*&self\s*,\s*atype\s*:\s*AttributeType\s*,\s*allowed_range\s*:\s*impl\s+std::ops::RangeBounds<usize>\s*,?\s*\)\s*->\s*Result<\(\),\s*StunParseError>\s*\{")
+        locs = ["atype", "start_bound", "end_bound"]
+    if body is None:
+        raise XlateError(f"{which} not found")
+    em = Emitter(exprs=exprs, pats=pats, state=None, ret="{v}", locals_=locs)
+    return em.blk(parse_body(body))
+
+
 def req_mut(src, name):
     txt = src.get(AGENT)
     imp = impl_body(txt, r"impl\s*<'a>\s*StunRequestMut<'a>\s*\{")
@@ -594,6 +620,8 @@ def items(src):
     yield ("FnAgent", "agentPollAfter", sig_acc, ap_part("after"), None)
     yield ("FnAgent", "agentPollLoop", "(now : Time) (__ord : List Nat) (s : State) (lowest_wait : Option Time) (timeout cancelled : Option Nat) : State × Out", ap_part("loop"), None)
     yield ("FnAgent", "agentPoll", "(s : State) (now : Time) (ord : List Nat) : State × Out", ap_part("entry"), None)
+    yield ("FnAttr", "checkLen", "(len : Nat) (start_bound end_bound : Bound) : Except PErr Unit", lambda: check_len_fn(src, "check_len"), None)
+    yield ("FnAttr", "checkTypeAndLen", "(a : RawAttr) (atype : Nat) (start_bound end_bound : Bound) : Except PErr Unit", lambda: check_len_fn(src, "check_type_and_len"), None)
     yield ("FnMsg", "attrHeaderParse", "(data : Bytes) : Except PErr (Nat × Nat)", lambda: decoder(src, "attr_header"), None)
     yield ("FnMsg", "rawFromBytes", "(data : Bytes) : Except PErr RawAttr", lambda: decoder(src, "raw"), None)
     yield ("FnMsg", "msgTypeFromBytes", "(data : Bytes) : Except PErr Nat", lambda: decoder(src, "mtype"), None)
@@ -630,6 +658,7 @@ def items(src):
 
 HEADERS = {
     "FnAgent": ["import StunVerif.Agent.Agent", "namespace StunVerif.Gen", "open StunVerif StunVerif.Agent", ""],
+    "FnAttr": ["import StunVerif.Attr.Bound", "namespace StunVerif.Gen", "open StunVerif", ""],
     "FnMsg": ["import StunVerif.Msg.IterState", "import StunVerif.Gen.MsgType", "namespace StunVerif.Gen", "open StunVerif", ""],
     "FnBuilder": ["import StunVerif.Msg.Builder", "namespace StunVerif.Gen", "open StunVerif", ""],
     "FnIntegrity": ["import StunVerif.Msg.ValidateLeaves", "import StunVerif.Gen.MsgType", "namespace StunVerif.Gen", "open StunVerif", ""],
